@@ -275,9 +275,11 @@ fn check_env_cleanup(ctx: &Ctx, judgements: &[DocJudgement], out: &mut Vec<Viola
         let script = main.format == Format::Cram || sc.cli.cram_compat;
         let list = exec_list(sc, main);
         let seen_path = cli.doc_path.get(&main.path).cloned().unwrap_or_default();
-        let (dir, file) = match seen_path.rfind('/') {
-            Some(i) => (seen_path[..i].to_string(), seen_path[i + 1..].to_string()),
-            None => (".".to_string(), seen_path.clone()),
+        // (a relative path is relative to the directory scrut was started in)
+        let abs_path = if seen_path.starts_with('/') { seen_path.clone() } else { format!("{}/{}", cli.doc_root, seen_path) };
+        let (dir, file) = match abs_path.rfind('/') {
+            Some(i) => (abs_path[..i].to_string(), abs_path[i + 1..].to_string()),
+            None => (".".to_string(), abs_path.clone()),
         };
         let testdir = canon(&dir);
         let shell = resolve(sc.cli.shell.as_deref().or(main.shell.as_deref()).unwrap_or("/bin/bash"));
